@@ -207,6 +207,29 @@ Theorem C10_site_composite_update_predict_restores_cutoff :
     K_get_cutoff leaf lpar tr tpar reg rpar s.
 Proof. exact site_comp_update_predict_restores_cutoff. Qed.
 
+(* the update methods of the series transformers the property anchors, regenerated from
+   transformations/series/detrend/: a Detrender hands the same data AND the same flag to its nested
+   trend forecaster, so with parameter updating disabled the trend parameters stay those of the last
+   fit; a (Conditional)Deseasonalizer's update leaves its fitted seasonal component alone *)
+Theorem C10_site_detrender_update_forwards_data_and_flag :
+  forall (N : Type) (N_update : N -> series -> bool -> N * bool) n z up,
+    gen_detrender_update N N_update n z up = N_update n z up.
+Proof. exact bridge_detrender_update. Qed.
+
+Theorem C10_site_detrender_update_no_param :
+  forall (leaf lpar : Type) (lfit : leaf -> series -> lpar) (ldefwl : leaf -> lpar -> Z) (l : leaf)
+         (s : fstate lpar) (y : series),
+    y <> [] ->
+    let r := gen_detrender_update (fstate lpar) (G_update leaf lpar lfit ldefwl l) s y false in
+    snd r = true /\ fpar lpar (fst r) = fpar lpar s /\ ffh lpar (fst r) = ffh lpar s /\
+    fmem lpar (fst r) = cfirst y (fmem lpar s) /\ fcut lpar (fst r) = last_time y.
+Proof. exact site_detrender_update_no_param. Qed.
+
+Theorem C10_site_deseasonalizer_update_keeps_parameters :
+  (forall (D : Type) (d : D) z up, gen_deseasonalizer_update D d z up = (d, true)) /\
+  gen_conditional_deseasonalizer_inherits_update = true.
+Proof. exact (conj bridge_deseasonalizer_update bridge_conditional_deseasonalizer_inherits_update). Qed.
+
 Print Assumptions C10_memory_after_every_call.
 Print Assumptions C10_memory_after_updates.
 Print Assumptions C10_refit_on_update_equals_fresh_fit.
@@ -225,6 +248,9 @@ Print Assumptions C10_site_memory_after_updates.
 Print Assumptions C10_site_update_predict_restores_cutoff.
 Print Assumptions C10_site_composite_methods_are_the_model.
 Print Assumptions C10_site_composite_update_predict_restores_cutoff.
+Print Assumptions C10_site_detrender_update_forwards_data_and_flag.
+Print Assumptions C10_site_detrender_update_no_param.
+Print Assumptions C10_site_deseasonalizer_update_keeps_parameters.
 
 (* Non-vacuity: a history with overlapping data, a refit, a no-parameter update and an
    update_predict over a sliding splitter, in the semantics of the leaf double; the snapshots
